@@ -2055,6 +2055,14 @@ class TrajectoryStore:
                 raise ValueError(f'Input TrajectoryStore file "{p}" does not exist')
             if Path(p).suffix != '.nc':
                 raise ValueError(f'Merge input "{p}" is not a NetCDF file')
+        # All inputs are moved into one directory under their own file names
+        # (next to the merged index): a repeated name would overwrite a file
+        # that was moved earlier.
+        names = [Path(p).name for p in input_stores]
+        if len(set(names)) != len(names) or '_index.nc' in names:
+            raise ValueError(
+                'Merge inputs must have distinct file names other than "_index.nc"'
+            )
         if not str(output_store).endswith('.aeic-store'):
             raise ValueError(
                 'Output TrajectoryStore file must have ".aeic-store" extension'
